@@ -5043,6 +5043,11 @@ class PyCdlib:
         if old_rec.is_dir():
             raise pycdlibexception.PyCdlibInvalidInput('Cannot make a hard link to a directory')
 
+        if self.eltorito_boot_catalog is not None and any(old_rec is rec for rec in self.eltorito_boot_catalog.dirrecords):
+            # The old path is one of the names of the El Torito boot catalog,
+            # so the new name is another one; the catalog has to know it.
+            boot_catalog_old = True
+
         num_bytes_to_add = self._add_hard_link_to_inode(old_rec.inode,
                                                         old_rec.get_data_length(),
                                                         fmode, boot_catalog_old,
